@@ -172,9 +172,9 @@ def parseLine (h : Hist) (line : String) : Hist :=
   match line.splitOn "\t" with
   | ["H", id, prop, cls, backend, swr, logger] =>
     { h with id := String.ofList (unhex id), prop := prop, cls := String.ofList (unhex cls), backend := backend, swrNs := toInt swr, logger := logger }
-  | ["I", "REQ", n, atv, method, url, ok, scheme, host, path, query, opaq, hdrs, cancel] =>
+  | ["I", "REQ", n, atv, method, url, ok, scheme, host, path, query, opaq, fq, hdrs, cancel] =>
     let r : Req := { method := unhex method, scheme := unhex scheme, host := unhex host, path := unhex path,
-                     query := unhex query, opaq := unhex opaq, header := parseHdrs hdrs }
+                     query := unhex query, opaq := unhex opaq, header := parseHdrs hdrs, forceQuery := (fq == "1") }
     let ri : ReqIn := { n := toNat n, atNs := toInt atv, method := unhex method, url := unhex url,
                         urlOk := (ok == "ok"), req := r, cancel := cancel }
     { h with reqs := h.reqs ++ [ri] }
@@ -182,11 +182,11 @@ def parseLine (h : Hist) (line : String) : Hist :=
     let rp : Resp := { status := toNat status, header := parseHdrs hdrs, body := unhex body }
     let ri : ReplyIn := { n := toNat n, k := toNat k, kind := kind, resp := rp, delay := toInt delay, bodyFail := toInt bf }
     { h with replies := h.replies ++ [ri] }
-  | ["I", "LOC", n, k, hdr, ok, scheme, host, _ok2, ks, kh, kp, kq, ko] =>
-    let g : LocGlue := { scheme := unhex scheme, host := unhex host, kScheme := unhex ks, kHost := unhex kh, kPath := unhex kp, kQuery := unhex kq, kOpaq := unhex ko }
+  | ["I", "LOC", n, k, hdr, ok, scheme, host, _ok2, ks, kh, kp, kq, ko, fq] =>
+    let g : LocGlue := { scheme := unhex scheme, host := unhex host, kScheme := unhex ks, kHost := unhex kh, kPath := unhex kp, kQuery := unhex kq, kOpaq := unhex ko, kForceQuery := (fq == "1") }
     let li : LocIn := { n := toNat n, k := toNat k, hdr := unhex hdr, ok := (ok == "ok"), g := g }
     { h with locs := h.locs ++ [li] }
-  | ["I", "LOC", n, k, hdr, "bad", _, _, _, _, _, _] =>
+  | ["I", "LOC", n, k, hdr, "bad", _, _, _, _, _, _, _] =>
     let g : LocGlue := { scheme := [], host := [], kScheme := [], kHost := [], kPath := [], kQuery := [], kOpaq := [] }
     let li : LocIn := { n := toNat n, k := toNat k, hdr := unhex hdr, ok := false, g := g }
     { h with locs := h.locs ++ [li] }
